@@ -129,6 +129,16 @@ func c06Exec(op string) string {
 		if string(b) != kept {
 			notes = append(notes, "KEPT the bytes Json() returned changed during later encoder calls")
 		}
+		// members of Go type mxj.Map, map[string]string or []string are JSON objects / arrays like the
+		// plain containers: the same text in both escaping modes, no escaped <, >, & in the default mode
+		if tm := retype(m, hashStr(op), "MSL", 0).(map[string]interface{}); len(notes) == 0 && enc(tm) != enc(m) {
+			tb, terr := mxj.Map(tm).Json(safe)
+			if terr != nil || !bytes.Equal(tb, b) {
+				notes = append(notes, "TYPED Json() of the same content held in other Go container types ("+clip(enc(tm), 100)+") differs: "+clip(string(tb), 160))
+			} else if tbi, _ := mxj.Map(tm).JsonIndent(" ", "\t", safe); !bytes.Equal(tbi, bi) {
+				notes = append(notes, "TYPED JsonIndent() of the same content held in other Go container types differs")
+			}
+		}
 		return "ok " + encStr(string(b)) + " | " + strings.Join(notes, "; ")
 	case "jquote":
 		html := c.boolean()
